@@ -212,6 +212,9 @@ func cmdVerify(mode string, argv []string) {
 			continue
 		}
 		h := P.harness[n]
+		if h.Kind == "iface-contract" {
+			continue // trusted, never proved
+		}
 		r := runHarness(P, h, opt)
 		printResult(r, *verbose)
 		if r.Err != "" {
